@@ -50,6 +50,15 @@ type TDSPeer struct {
 
 	ClientClosedConn bool
 	lastDeliver      time.Duration
+
+	// NewSub, if set, makes the peer serve further connections: each gets its own wire state from NewSub.
+	NewSub func(c *simrt.Conn) *TDSPeer
+	Subs   map[int]*TDSPeer
+}
+
+// SubPeer creates the wire state for an additional connection.
+func SubPeer(s *simrt.Sim, c *simrt.Conn) *TDSPeer {
+	return &TDSPeer{S: s, Conn: c, pending: map[uint16][]peer.RecvPacket{}, count: map[uint16]int{}}
 }
 
 func NewTDSPeer(s *simrt.Sim) *TDSPeer {
@@ -61,15 +70,31 @@ func NewTDSPeer(s *simrt.Sim) *TDSPeer {
 func (p *TDSPeer) Connected(c *simrt.Conn) {
 	if p.Conn == nil {
 		p.Conn = c
+	} else if c != p.Conn && p.NewSub != nil {
+		if p.Subs == nil {
+			p.Subs = map[int]*TDSPeer{}
+		}
+		p.Subs[c.ID] = p.NewSub(c)
+		return
 	}
 	if p.OnConnect != nil {
 		p.OnConnect()
 	}
 }
 
-func (p *TDSPeer) ClientClosed(c *simrt.Conn) { p.ClientClosedConn = true }
+func (p *TDSPeer) ClientClosed(c *simrt.Conn) {
+	if sp := p.Subs[c.ID]; sp != nil && c != p.Conn {
+		sp.ClientClosedConn = true
+		return
+	}
+	p.ClientClosedConn = true
+}
 
 func (p *TDSPeer) Data(c *simrt.Conn, b []byte) {
+	if sp := p.Subs[c.ID]; sp != nil && c != p.Conn {
+		sp.Data(c, b)
+		return
+	}
 	for _, pk := range p.Asm.Feed(b) {
 		p.PacketSeq = append(p.PacketSeq, simrt.Record("peer-packet", pk.H.String(), "", int64(len(pk.Body))))
 		if p.OnPacket != nil {
